@@ -240,11 +240,14 @@ def run(chk):
     for j2 in (1, 2) if quick else (1, 2, 3):
         def f_irr(j2=j2):
             return L.get_su2_irrep(j2, ang['alpha'], ang['beta'], ang['gamma']), L.angle_to_su2(ang['alpha'], ang['beta'], ang['gamma'])
+        S.MOD_EXACT[0] = True              # a range reduction of an Euler angle inside the code is modelled exactly (it is not the identity on half angles)
         try:
             paths, st = H.run_paths(f_irr, [], np_facade=fac, feas_timeout_ms=2000)
         except S.EngineError as e:
             chk.engine_error(f'get_su2_irrep j2={j2}', e)
             continue
+        finally:
+            S.MOD_EXACT[0] = False
         chk.add_path_stats(st)
         chk.configurations += 1
         for pi, path in enumerate(paths):
